@@ -17,6 +17,11 @@ import (
 // relative round-off error in big.Float precision numbers
 var dpSafeEpsilon = 1e-15
 
+// exactPrec is a mantissa size at which differences of two float64 values,
+// products of two such differences, and the difference of two such products
+// are all represented without rounding.
+const exactPrec = 4400
+
 // OrientationIndex returns the index of the direction of point relative
 // to a vector specified by vectorOrigin-vectorEnd
 //
@@ -36,6 +41,9 @@ func OrientationIndex(vectorOrigin, vectorEnd, point geom.Coord) orientation.Typ
 	}
 
 	var dx1, dy1, dx2, dy2 big.Float
+	for _, f := range []*big.Float{&dx1, &dy1, &dx2, &dy2} {
+		f.SetPrec(exactPrec)
+	}
 
 	// normalize coordinates
 	dx1.SetFloat64(vectorEnd[0]).Add(&dx1, big.NewFloat(-vectorOrigin[0]))
